@@ -34,13 +34,60 @@ Definition digest_eqb (model obs : digest) : bool :=
 
 Definition oresp_eqb (a : option resp) (b : resp) : bool := match a with Some r => resp_eqb r b | None => false end.
 
+(* "each response": what the issuer itself was sent for its command.  FETCH lines are compared per sequence number on
+   the LAST line for that number (a flushed notification precedes the command's own result, and which notifications are
+   flushed with which command legitimately depends on arrival times), and only for numbers both sides mention; BODY and
+   SEARCH data are only ever a command's own result and must agree exactly. *)
+Definition own_data (s : Z) (o : out) : list resp := map snd (filter (fun p => fst p =? s) o).
+Fixpoint fput {A} (t : list (Z * A)) (n : Z) (v : A) : list (Z * A) :=
+  match t with [] => [(n, v)] | (m, x) :: t' => if m =? n then (n, v) :: t' else (m, x) :: fput t' n v end.
+Fixpoint fget {A} (t : list (Z * A)) (n : Z) : option A :=
+  match t with [] => None | (m, x) :: t' => if m =? n then Some x else fget t' n end.
+Fixpoint fetch_tab (l : list resp) (t : list (Z * resp)) : list (Z * resp) :=
+  match l with
+  | [] => t
+  | RFetch n fl u g :: r => fetch_tab r (fput t n (RFetch n fl u g))
+  | _ :: r => fetch_tab r t
+  end.
+Definition is_body (r : resp) : bool := match r with RBody _ _ _ _ _ | RSearch _ => true | _ => false end.
+(* the sequence numbers a FETCH/STORE addresses when it runs in world w (its message set after admission) *)
+Definition own_keys (w : world) (o : op) : list Z :=
+  let addressed (s : Z) (uidc : bool) (st : list sset_elt) :=
+    match sel w s with
+    | None => []
+    | Some n => match get_box w n with
+                | None => []
+                | Some b => let '(b0, _) := flush b s in
+                            match admit_set w n b0 uidc st with Ok (_, _, sl) => sl | Err _ => [] end
+                end
+    end in
+  match o with
+  | OStore s uidc st _ _ _ => addressed s uidc st
+  | OFetch s uidc st _ => addressed s uidc st
+  | _ => []
+  end.
+(* FETCH lines for the messages the command addresses are compared (last line per number: a notification about such a
+   message comes from a command that conflicts with this one, hence ran before or after it); lines about other
+   messages are notifications whose timing depends on arrival order and are left to the stream oracle *)
+Definition data_ok (keys : list Z) (model impl : list resp) : bool :=
+  let tm := fetch_tab model [] in
+  let ti := fetch_tab impl [] in
+  forallb (fun nr => negb (zmem (fst nr) keys) ||
+                     match fget ti (fst nr) with Some r => resp_eqb (snd nr) r | None => false end) tm &&
+  forallb (fun nr => negb (zmem (fst nr) keys) ||
+                     match fget tm (fst nr) with Some _ => true | None => false end) ti &&
+  let bm := filter is_body model in
+  let bi := filter is_body impl in
+  forallb (fun b => existsb (resp_eqb b) bi) bm && forallb (fun b => existsb (resp_eqb b) bm) bi.
+
 (* COPY and MOVE count as their documented steps: read the source; add to the destination; for
    MOVE then remove from the source.  An atom is one such step (or a whole other command). *)
 Inductive atom :=
-  | AOp (o : op) (want : resp)
+  | AOp (o : op) (want : resp) (data : list resp)   (* data: what the implementation sent the issuer *)
   | ARead (i : nat) (s : Z) (uidc : bool) (st : list sset_elt) (dst : string) (is_move : bool) (want : resp)
   | AAdd (i : nat) (s : Z) (dst : string) (is_move : bool) (want : resp)
-  | ADel (i : nat) (s : Z) (want : resp).
+  | ADel (i : nat) (s : Z) (want : resp)
+  | APoll.   (* the management task's periodic look at the folders fires during the batch (a timer is one of the events) *)
 
 (* picked: per command index, the messages read from the source (None: the command already failed/finished) *)
 Definition ptable := list (nat * option (list msg)).
@@ -108,9 +155,10 @@ Definition code_of (r : resp) : rcode := match r with ROk c => c | RMoveOk c => 
 Fixpoint run_atoms (w : world) (t : ptable) (order : list atom) : option world :=
   match order with
   | [] => Some w
-  | AOp o want :: rest =>
+  | AOp o want data :: rest =>
       let '(w', out) := step w o in
-      if oresp_eqb (tagged_of (op_issuer o) out) want then run_atoms w' t rest else None
+      if oresp_eqb (tagged_of (op_issuer o) out) want && data_ok (own_keys w o) (own_data (op_issuer o) out) data
+      then run_atoms w' t rest else None
   | ARead i s uidc st dst mv want :: rest =>
       match read_half w s uidc st dst mv with
       | (w1, _, Some final) => if resp_eqb final want then run_atoms w1 ((i, None) :: t) rest else None
@@ -128,6 +176,7 @@ Fixpoint run_atoms (w : world) (t : ptable) (order : list atom) : option world :
       | Some None => run_atoms w t rest
       | None => None
       end
+  | APoll :: rest => run_atoms (fst (step w OPoll)) t rest
   | ADel i s want :: rest =>
       match pget t i with
       | Some (Some picked) =>
@@ -159,7 +208,7 @@ Definition linearizable_steps (w0 : world) (prefix : list op) (cmds : list (list
   let w := fst (run w0 prefix) in
   existsb (fun order => match run_atoms w [] order with
                         | Some w' => digest_eqb (digest_of (fst (step w' OPoll))) final
-                        | None => false end) (merges cmds).
+                        | None => false end) (merges cmds ++ merges (cmds ++ [[APoll]])).
 
 (* run the commands in the order [order] (indices into cmds), checking each tagged result *)
 Fixpoint run_order (w : world) (order : list (nat * (op * resp))) : option world :=
